@@ -11,6 +11,7 @@ import json
 from typing import List, Tuple
 
 from pyopenapi_gen.context.render_context import RenderContext
+from pyopenapi_gen.core.utils import NameSanitizer
 
 from .code_writer import CodeWriter
 from .documentation_writer import DocumentationBlock, DocumentationWriter
@@ -68,6 +69,14 @@ class PythonConstructRenderer:
         # Insert underscore before uppercase letters followed by lowercase
         s2 = re.sub("([a-z0-9])([A-Z])", r"\1_\2", s1)
         return s2.lower()
+
+    def _emitted_names(self, schema_name: str, context: RenderContext) -> tuple[str, str]:
+        """Class name and module stem a mapped schema is emitted with (CatV2 lives in cat_v_2.py, HTTPDog is HttpDog)."""
+        schemas = getattr(context, "parsed_schemas", None) or {}
+        schema = schemas.get(schema_name) or schemas.get(NameSanitizer.sanitize_class_name(schema_name))
+        if schema is not None and schema.generation_name and schema.final_module_stem:
+            return schema.generation_name, schema.final_module_stem
+        return schema_name, self._to_module_name(schema_name)
 
     def render_alias(
         self,
@@ -139,15 +148,14 @@ class PythonConstructRenderer:
                 writer.write_line("")
                 writer.write_line("    def get_mapping(self) -> dict[str, type]:")
                 writer.write_line('        """Get discriminator mapping with actual type references."""')
-                # Import types locally
+                # Import types locally, under the class and module names the models were emitted with
                 for disc_value, schema_ref in discriminator.mapping.items():
-                    schema_name = schema_ref.split("/")[-1]
-                    module_name = self._to_module_name(schema_name)
-                    writer.write_line(f"        from .{module_name} import {schema_name}")
+                    class_name, module_name = self._emitted_names(schema_ref.split("/")[-1], context)
+                    writer.write_line(f"        from .{module_name} import {class_name}")
                 writer.write_line("        return {")
                 for disc_value, schema_ref in discriminator.mapping.items():
-                    schema_name = schema_ref.split("/")[-1]
-                    writer.write_line(f"            {_py_str(disc_value)}: {schema_name},")
+                    class_name, _ = self._emitted_names(schema_ref.split("/")[-1], context)
+                    writer.write_line(f"            {_py_str(disc_value)}: {class_name},")
                 writer.write_line("        }")
             else:
                 writer.write_line("    _mapping_data: tuple[tuple[str, str], ...] | None = None")
